@@ -34,7 +34,15 @@ TParse == /\ Is("Parse") /\ Parse(E.entry, E.given, E.by) /\ E.res = act'.res
           /\ (E.given \in PwClasses => PwBinds(E.given, E.gpw)) /\ E.eq = (E.given = obj.pwd)
           /\ Adv
 TToPublic == Is("ToPublic") /\ ToPublic /\ E.ok /\ Adv
-TSign == /\ Is("Sign") /\ Sign(E.P, E.by) /\ E.ok
+\* src: how the key reached the signer.  encrypted: the key FILE handed to the signer does not open without a password (independent
+\* fact); prompts: how often the signer asked for the passphrase (the harness "types" it).  cls: every (hash, padding) of the matrix
+\* under which the independent base accepts the signature for the signed message - it must be exactly the requested pair, whichever
+\* way the key was opened (a signature asked for as PSS that comes out as PKCS#1 v1.5 after the prompt is NOT the requested one)
+SigClass(c) == {[hash |-> c[i].hash, pad |-> c[i].pad] : i \in 1..Len(c)}
+TSign == /\ Is("Sign") /\ Sign(E.P, E.by, E.src) /\ E.ok
+         /\ E.encrypted = NeedsPassword(E.src)
+         /\ (E.src = "prompt" => E.prompts >= 1)
+         /\ SigClass(E.cls) = {[hash |-> obj'.hash, pad |-> obj'.pad]}
          /\ E.sigLen = SigLenExpected(obj.kt, obj.size, E.P.enc, E.rl, Top(E.r0), E.sl, Top(E.s0))
          /\ (obj.kt = "ecc" => E.rl >= 1 /\ E.rl <= CoordLen(obj.size) /\ E.sl >= 1 /\ E.sl <= CoordLen(obj.size))
          /\ Adv
